@@ -19,9 +19,16 @@ class G:
         self.kw = 0
         self.used_features = set()
 
+    lit_style = 'plain'
+
     def newkw(self):
         self.kw += 1
-        return Lit(self.r.choice(['k', 'kw', 'key', 'K']) + str(self.kw))
+        n = str(self.kw)
+        if self.lit_style == 'rich':
+            form = self.r.choice(['k%s', 'Kw%s', 'key_%s', 'then%s:', 'and-then%s', '#inc%s', '%sd', 'a%s.b', 'for each%s',
+                                  '\u043a\u043b%s', '\u00e9t\u00e9%s', 'x%sY', '->%s', '@%s@', 'end%s;', 'K%s', 'if%s'])
+            return Lit(form % n)
+        return Lit(self.r.choice(['k', 'kw', 'key', 'K']) + n)
 
     def grammar(self):
         r = self.r
